@@ -4,7 +4,7 @@ From Coq Require Import String List NArith Bool.
 From J5V.lib Require Import Outcome.
 From J5V.model Require Import Conc ConcKey ConcSites ConcCorr ConcRace ConcStatement ConcState ConcRW ConcHB ConcProbe ConcCodec ConcProperty ConcWalk.
 From J5V.gen Require ConcGen ConcStateGen.
-From J5V.proofs Require Import ConcProofs ConcLeafProofs ConcInvProofs ConcTermProofs ConcMainProofs ConcRetProofs ConcRaceProofs ConcFullProofs ConcKeyProofs ConcRWProofs ConcHBProofs ConcProbeProofs ConcCodecProofs ConcPropertyProofs ConcWalkProofs.
+From J5V.proofs Require Import ConcProofs ConcLeafProofs ConcInvProofs ConcTermProofs ConcMainProofs ConcRetProofs ConcRaceProofs ConcFullProofs ConcKeyProofs ConcRWProofs ConcHBProofs ConcProbeProofs ConcCodecProofs ConcPropertyProofs ConcWalkProofs ConcKeyOwnProofs.
 Import ListNotations.
 Local Open Scope N_scope.
 
@@ -647,6 +647,29 @@ Theorem C10_shared_counter_is_a_conflict :
     wconflict e1 e2.
 Proof. exact shared_counter_conflicts. Qed.
 Print Assumptions C10_shared_counter_is_a_conflict.
+
+(* ---- what the claim check of /repo 0e6056c does guarantee on type sets with shared keys --------- *)
+(* With HitCheck (the treatment the regenerated tables show the code to have) a call for descriptor n is
+   never handed an object registered for ANOTHER descriptor — whatever the key function (collisions
+   included), the discipline, the schedule: either the call fails or the object is its own.  Serving what
+   is found (the code before 0e6056c) hands thread 1 of the witness the object of the other descriptor. *)
+Theorem C10_claim_never_hands_out_foreign_object : forall key d k g calls sched t n c,
+  In (t, n, c) (krets HitCheck key d k g calls sched) ->
+  src_is (heap (s_sh (krun HitCheck key d k g calls sched))) c n.
+Proof. exact claim_hands_out_own_object. Qed.
+Print Assumptions C10_claim_never_hands_out_foreign_object.
+
+Theorem C10_code_has_the_claim_check : code_hitpol = HitCheck.
+Proof. vm_compute. reflexivity. Qed.
+Print Assumptions C10_code_has_the_claim_check.
+
+Example C10_serve_hands_out_foreign_object :
+  let key := key_of [(3, 2)] in
+  let g := [(1, []); (2, [4]); (3, []); (4, [])] in
+  let sched := (repeat 0 8 ++ repeat 1 3)%nat in
+  In (1%nat, 3, 0%nat) (krets HitServe key Guarded 3 g [[2]; [3]] sched) /\
+  src_is (heap (s_sh (krun HitServe key Guarded 3 g [[2]; [3]] sched))) 0%nat 2.
+Proof. exact serve_hands_out_foreign_object. Qed.
 
 (* ---- the property as a whole ------------------------------------------------------------------ *)
 (* ConcProperty.C10_property pol d: "each call returns what it returns alone" over EVERY key function (type
